@@ -934,6 +934,15 @@ class Registry:
 
     # ------------------------------------------------------------------ the call rule
     def apply_contract(self, eng, c: Contract, args, kwargs, st, node, self_expr=None):
+        # opts=["callee:<key>=<key>@<tag>"] of the function being verified: at ITS call sites use another contract of the SAME callee function
+        # (e.g. the Seq-valued contract of get_parent_modules instead of the Bag-valued one); anything else is refused
+        for o in (getattr(getattr(eng, "c", None), "opts", ()) or ()):
+            if o.startswith("callee:") and o[7:].split("=", 1)[0] == c.key:
+                alt_ = self.contracts.get(o.split("=", 1)[1])
+                if alt_ is None or alt_.qualname.split("@")[0] != c.qualname.split("@")[0] or (alt_.module or c.module) != (c.module or alt_.module) or alt_.kind != c.kind:
+                    raise ContractDrift(f"callee variant {o}: not a contract of the same function")
+                c = alt_
+                break
         try:
             return self._apply_contract(eng, c, args, kwargs, st, node, self_expr)
         except BindMismatch:
@@ -941,6 +950,20 @@ class Registry:
             if alt is None:
                 raise
             return self.apply_contract(eng, alt, args, kwargs, st, node, self_expr)
+
+    def bag_as_seq(self, st, v, t):
+        """A list known only in bag view (its element set) handed to a callee that reads it as a sequence: SOME sequence with exactly these
+        elements, in an unknown order, possibly with repetitions (sound: the bag view abstracts a real Python list)."""
+        from .vals import _compatible
+        if not _compatible(v.t[1], t[1]):
+            raise TypeError(f"cannot view {v.t} as {t}")
+        s = z3.Const(fresh_name("aslist"), sort_of(t))
+        j = z3.Int(fresh_name("j"))
+        x = z3.Const(fresh_name("e"), sort_of(t[1]))
+        pos = z3.Function(fresh_name("posof"), sort_of(t[1]), z3.IntSort())
+        st.assume(z3.ForAll([j], z3.Implies(z3.And(0 <= j, j < z3.Length(s)), z3.Select(v.x, s[j]))))
+        st.assume(z3.ForAll([x], z3.Implies(z3.Select(v.x, x), z3.And(0 <= pos(x), pos(x) < z3.Length(s), s[pos(x)] == x))))
+        return V(t, s)
 
     def _apply_contract(self, eng, c: Contract, args, kwargs, st, node, self_expr=None):
         eng.callees.add(c.key)
@@ -993,6 +1016,8 @@ class Registry:
                     if not eng.spec:
                         eng.oblige(st, znot(a_.x[0]), "pre@call", f"pre@call[{c.key}@{lineno}:{n} is not None]", lineno)
                     a_ = a_.x[1]
+                if a_.t[0] == "bag" and c.params[n][0] == "seq" and not eng.spec and getattr(eng, "qdepth", 0) == 0:
+                    a_ = self.bag_as_seq(st, a_, c.params[n])
                 cs.vars[n] = coerce(a_, c.params[n]) if c.params[n][0] != "closure" and c.params[n] != ("opaque", "Any") else a_
             except TypeError as e:
                 raise BindMismatch(f"{c.key}: argument {n}: {e} (line {lineno})")
